@@ -1,0 +1,180 @@
+//go:build verif
+
+package corebgp
+
+import (
+	"context"
+	"errors"
+	"net"
+	"net/netip"
+	"time"
+)
+
+// Instrumentation used by the runtime-verification harness in /verif. Nothing
+// in this file is compiled unless the verif build tag is set.
+
+// VerifHook, when non-nil, is invoked at named schedule points inside the FSM
+// and peer manager goroutines. dir is 0 for the outbound FSM, 1 for the
+// inbound FSM and -1 when the point is not FSM specific. It must be set
+// before any Server is started and not changed while one is running.
+var VerifHook func(site string, peer netip.Addr, dir int)
+
+// VerifDial, when non-nil, replaces the net.Dialer used for outbound
+// connections. Returning ok=false falls through to the real dialer.
+var VerifDial func(ctx context.Context, peer PeerConfig, localAddress netip.Addr,
+	port int) (conn net.Conn, err error, ok bool)
+
+type verifFSM struct {
+	verifInbound bool
+}
+
+func (v *verifFSM) verifInit(inbound bool) {
+	v.verifInbound = inbound
+}
+
+func verifPoint(site string, f *fsm) {
+	h := VerifHook
+	if h == nil {
+		return
+	}
+	if f == nil {
+		h(site, netip.Addr{}, -1)
+		return
+	}
+	dir := out
+	if f.verifInbound {
+		dir = in
+	}
+	h(site, f.peer.config.RemoteAddress, dir)
+}
+
+func verifPeerPoint(site string, p *peer) {
+	h := VerifHook
+	if h == nil {
+		return
+	}
+	h(site, p.config.RemoteAddress, -1)
+}
+
+func verifDial(ctx context.Context, f *fsm) (net.Conn, error, bool) {
+	d := VerifDial
+	if d == nil {
+		return nil, nil, false
+	}
+	return d(ctx, f.peer.config, f.peer.options.localAddress, f.peer.options.port)
+}
+
+// Export shim for the unexported OPEN / NOTIFICATION codecs.
+
+// VerifOpen wraps a decoded or constructed OPEN message.
+type VerifOpen struct {
+	m *openMessage
+}
+
+// VerifDecodeOpen runs openMessage.decode on an OPEN body (no header).
+func VerifDecodeOpen(b []byte) (*VerifOpen, error) {
+	o := &openMessage{}
+	err := o.decode(b)
+	if err != nil {
+		return &VerifOpen{m: o}, err
+	}
+	return &VerifOpen{m: o}, nil
+}
+
+// VerifBuildOpen constructs an OPEN from field values; every element of params
+// becomes one capabilities optional parameter.
+func VerifBuildOpen(version uint8, asn, holdTime uint16, bgpID uint32,
+	params [][]Capability) *VerifOpen {
+	o := &openMessage{
+		version:  version,
+		asn:      asn,
+		holdTime: holdTime,
+		bgpID:    bgpID,
+	}
+	for _, caps := range params {
+		o.optionalParams = append(o.optionalParams,
+			&capabilityOptionalParam{capabilities: caps})
+	}
+	return &VerifOpen{m: o}
+}
+
+// VerifNewOpen runs newOpenMessage, the constructor used by the FSM.
+func VerifNewOpen(asn uint32, holdTime time.Duration, bgpID uint32,
+	caps []Capability) (*VerifOpen, error) {
+	o, err := newOpenMessage(asn, holdTime, bgpID, caps)
+	if err != nil {
+		return nil, err
+	}
+	return &VerifOpen{m: o}, nil
+}
+
+// Fields returns the content of the OPEN; params holds the capabilities of
+// each capabilities optional parameter in order.
+func (v *VerifOpen) Fields() (version uint8, asn, holdTime uint16, bgpID uint32,
+	params [][]Capability) {
+	for _, p := range v.m.optionalParams {
+		c, ok := p.(*capabilityOptionalParam)
+		if ok {
+			params = append(params, c.capabilities)
+		}
+	}
+	return v.m.version, v.m.asn, v.m.holdTime, v.m.bgpID, params
+}
+
+// Capabilities returns what the FSM hands to Plugin.OnOpenMessage.
+func (v *VerifOpen) Capabilities() []Capability {
+	return v.m.getCapabilities()
+}
+
+// Encode returns the full message including the 19-byte header.
+func (v *VerifOpen) Encode() ([]byte, error) {
+	return v.m.encode()
+}
+
+// Validate runs openMessage.validate.
+func (v *VerifOpen) Validate(localID, localAS, remoteAS uint32) error {
+	return v.m.validate(localID, localAS, remoteAS)
+}
+
+// VerifDecodeNotification runs Notification.decode on a NOTIFICATION body.
+func VerifDecodeNotification(b []byte) (*Notification, error) {
+	n := &Notification{}
+	err := n.decode(b)
+	return n, err
+}
+
+// VerifEncodeNotification returns the full message including the header.
+func VerifEncodeNotification(n *Notification) ([]byte, error) {
+	return n.encode()
+}
+
+// VerifMessageFromBytes runs messageFromBytes and describes the result: kind
+// is one of "open", "update", "notification", "keepalive".
+func VerifMessageFromBytes(body []byte, messageType uint8) (kind string,
+	open *VerifOpen, update []byte, notif *Notification, err error) {
+	m, err := messageFromBytes(body, messageType)
+	if err != nil {
+		return "", nil, nil, nil, err
+	}
+	switch m := m.(type) {
+	case *openMessage:
+		return "open", &VerifOpen{m: m}, nil, nil, nil
+	case updateMessage:
+		return "update", nil, []byte(m), nil, nil
+	case *Notification:
+		return "notification", nil, nil, m, nil
+	case *keepAliveMessage:
+		return "keepalive", nil, nil, nil, nil
+	}
+	return "unknown", nil, nil, nil, nil
+}
+
+// VerifNotifOf extracts the NOTIFICATION carried by an internal error, and
+// whether it is one corebgp sends (out) rather than one it received.
+func VerifNotifOf(err error) (n *Notification, out bool, ok bool) {
+	var nerr *notificationError
+	if errors.As(err, &nerr) {
+		return nerr.notification, nerr.out, true
+	}
+	return nil, false, false
+}
